@@ -1,8 +1,8 @@
 ----------------------------- MODULE MCPrivacy -----------------------------
 EXTENDS Privacy, Json, TLC
-StateRec == [started |-> started, proxy |-> proxy, kind |-> kind, conf |-> conf, due |-> due, wanted |-> wanted]
+StateRec == [started |-> started, proxy |-> proxy, kind |-> kind, conf |-> conf, due |-> due, wanted |-> wanted, peer |-> peer]
 Emit == PrintT("EDGE " \o ToJson([f |-> StateRec,
                                   a |-> [l |-> last', out |-> out', forbidden |-> Forbidden(conf', proxy')],
                                   t |-> StateRec']))
-view == <<started, proxy, kind, conf, due, wanted>>
+view == <<started, proxy, kind, conf, due, wanted, peer>>
 =============================================================================
